@@ -216,6 +216,10 @@ func cancelRunVM(prog compiler.CompileOutput, limits runtime.CoreLimits, k int64
 	}
 	rec.mu.Lock()
 	defer rec.mu.Unlock()
+	// what was printed after the last poll (or without any poll at all) is a gap as well
+	if g := rec.prints - rec.last; g > rec.maxgap {
+		rec.maxgap = g
+	}
 	return fmt.Sprintf("%s k=%d p0=%d polls=%d after=%d out=%s opp=%s tpp=%s maxgap=%d gor=%s", outcome, k, p0, polls, after,
 		hexs(rec.out.String()), intList(rec.opp, trace), intList(rec.tpp, trace), rec.maxgap, gor)
 }
